@@ -175,7 +175,16 @@ func registerVAPI(I map[string]intrinsicFn) {
 		n := w.concInt(a[1], "length")
 		s := make(Slice, n)
 		for i := range s {
-			s[i] = w.input(fmt.Sprintf("%s[%d]", name, i), 8)
+			key := fmt.Sprintf("%s[%d]", name, i)
+			if w.h.Concrete != nil {
+				if _, ok := w.h.Concrete[key]; !ok {
+					// same filler as the native vBytes for bytes the sample does not mention
+					d := sha256.Sum256([]byte(key))
+					s[i] = w.tc.Const(8, uint64(d[0]))
+					continue
+				}
+			}
+			s[i] = w.input(key, 8)
 		}
 		return s
 	}
